@@ -12,18 +12,17 @@ Import ListNotations.
    (0 EOFError, 1 pickle.UnpicklingError, 2 anything else) *)
 Inductive obs := ObsLoaded (vid : N) | ObsRaised (cls : N).
 
-Inductive tev := TOpen (x : file) (trunc : bool) | TWrite (x : file) (bs : bytes) | TClose (x : file).
-
 Record cstate := {
   cs_wi : N;                               (* writes before this one are complete *)
   cs_stage : N;                            (* 0 before the opens of write wi; 1 pickle opened only; 2 both opened *)
   cs_np : N; cs_nj : N;                    (* stage 2: bytes of the pickle / side file on disk *)
   cs_disk : list (option (N * N));         (* the disk the harness materialised: per file (blob, length) *)
   cs_odb : obs; cs_hist : obs;             (* rope: MemoryDB._files after Project(...); project.history *)
+  cs_names : obs;                          (* rope: AutoImport(project).names *)
   cs_full : bool                           (* also execute the step list (quadratic; sampled) *)
 }.
 
-Record rcase := { rc_disk : list (option (N * N)); rc_odb : obs; rc_hist : obs }.
+Record rcase := { rc_disk : list (option (N * N)); rc_odb : obs; rc_hist : obs; rc_names : obs }.
 
 Record group := {
   g_blobs : list bytes;
@@ -33,7 +32,7 @@ Record group := {
   g_writes : list (dfile * N * N * N);     (* data file, value index, pickle blob, json blob *)
   g_trace : list tev;
   g_final : list (option N);               (* disk after the save as read back *)
-  g_old : N * N;                           (* value indices rope loads from d0: objectdb, history *)
+  g_old : N * N * N;                       (* value indices rope loads from d0: objectdb, history, globalnames *)
   g_live : option (N * N);                 (* History at the save: hist_data of its untrimmed lists, max_undos *)
   g_states : list cstate;
   g_reads : list rcase
@@ -51,7 +50,9 @@ Definition writes (g : group) : list write :=
                   {| w_file := f; w_val := val g v; w_pickle := blob g p; w_json := blob g j |} end) (g_writes g).
 
 Definition file_index (x : file) : nat :=
-  match x with P Objectdb => 0 | J Objectdb => 1 | P History => 2 | J History => 3 end.
+  match x with
+  | P Objectdb => 0 | J Objectdb => 1 | P History => 2 | J History => 3 | P Globalnames => 4 | J Globalnames => 5
+  end.
 
 Definition disk_of_blobs (g : group) (l : list (option N)) : disk :=
   fun x => match nth (file_index x) l None with Some i => Some (blob g i) | None => None end.
@@ -66,23 +67,6 @@ Fixpoint bytes_eqb (a b : bytes) : bool :=
 Definition content_eqb (a b : option bytes) : bool :=
   match a, b with Some x, Some y => bytes_eqb x y | None, None => true | _, _ => false end.
 Definition disk_eqb (d d' : disk) : bool := forallb (fun x => content_eqb (d x) (d' x)) all_files.
-
-(* ---- trace ---------------------------------------------------------------------------------------- *)
-Fixpoint trace_steps (t : list tev) : option (list step) :=
-  match t with
-  | [] => Some []
-  | e :: r =>
-      match trace_steps r with
-      | None => None
-      | Some s =>
-          match e with
-          | TOpen x true => Some (OpenTrunc x :: s)
-          | TOpen x false => None                       (* an open that does not truncate is not in the model *)
-          | TWrite x bs => Some (map (Append x) bs ++ s)
-          | TClose x => Some (Close x :: s)
-          end
-      end
-  end.
 
 (* ---- the disk of a crash state, computed directly (C18_every_byte_prefix_is_a_crash_state) --------- *)
 Definition complete_disk (ws : list write) (d0 : disk) : disk :=
@@ -109,7 +93,11 @@ Definition stepped_disk (ws : list write) (d0 : disk) (wi stage np nj : N) : dis
   run (save_steps (firstn (N.to_nat wi) ws) ++ prefix_steps (nth (N.to_nat wi) ws dummy_write) stage np nj) d0.
 
 (* ---- comparing outcomes --------------------------------------------------------------------------- *)
-Definition exn_code (e : exn) : N := match e with ExEOF => 0 | ExUnpickling => 1 | ExConsumer => 2 end.
+(* 0 EOFError, 1 UnpicklingError, 2 TypeError, 3 IndexError, 4 KeyError, 5 AttributeError (6: anything else) *)
+Definition exn_code (e : exn) : N :=
+  match e with
+  | ExEOF => 0 | ExUnpickling => 1 | ExType => 2 | ExIndex => 3 | ExKey => 4 | ExAttribute => 5 | ExFuel => 99
+  end.
 
 Definition odb_agrees (g : group) (m : ores) (o : obs) : bool :=
   match m, o with
@@ -128,6 +116,11 @@ Definition model_odb (g : group) (catches : exn -> bool) (d : disk) : ores :=
   load_files (read_data (tbl_unpickle (table g)) catches d Objectdb).
 Definition model_hist (g : group) (catches : exn -> bool) (d : disk) : hres :=
   load_history (read_data (tbl_unpickle (table g)) catches d History).
+Definition model_names (g : group) (catches : exn -> bool) (d : disk) : ores :=
+  load_names (read_data (tbl_unpickle (table g)) catches d Globalnames).
+Definition old_odb (g : group) : N := fst (fst (g_old g)).
+Definition old_hist (g : group) : N := snd (fst (g_old g)).
+Definition old_names (g : group) : N := snd (g_old g).
 
 (* the conclusion of C18_objectdb_usable / C18_history_usable, evaluated on the repaired model *)
 Definition written_vals (g : group) (f : dfile) : list pval :=
@@ -135,30 +128,41 @@ Definition written_vals (g : group) (f : dfile) : list pval :=
 Definition odb_in_spec (g : group) (m : ores) : bool :=
   match m with
   | OOk v => files_ok v
-             && (pval_eqb v (val g (fst (g_old g))) || pval_eqb v (PDict [])
+             && (pval_eqb v (val g (old_odb g)) || pval_eqb v (PDict [])
                  || existsb (pval_eqb v) (written_vals g Objectdb))
   | _ => false
   end.
 Definition hist_in_spec (g : group) (m : hres) : bool :=
   match m with
   | HOk u r => let v := hist_data u r in
-               pval_eqb v (val g (snd (g_old g))) || pval_eqb v (hist_data [] [])
+               pval_eqb v (val g (old_hist g)) || pval_eqb v (hist_data [] [])
                || existsb (pval_eqb v) (written_vals g History)
+  | _ => false
+  end.
+
+Definition names_in_spec (g : group) (m : ores) : bool :=
+  match m with
+  | OOk v => names_ok v
+             && (pval_eqb v (val g (old_names g)) || pval_eqb v (PDict [])
+                 || existsb (pval_eqb v) (written_vals g Globalnames))
   | _ => false
   end.
 
 Definition bit (b : bool) (n : N) : N := if b then n else 0%N.
 
-(* 4 / 8: rope differs from the repaired model (object db / history); 16 / 32: from the model of the
-   reader as it stands; 64: the repaired model leaves the theorems' conclusion (cannot happen) *)
-Definition outcome_code (g : group) (d : disk) (o_odb o_hist : obs) (in_crash : bool) : N :=
+(* 4 / 8 / 256: rope differs from the repaired model (object db / history / global names); 16 / 32 / 512: from
+   the model of the reader as it stood before the fix; 64: the repaired model leaves the theorems' conclusion *)
+Definition outcome_code (g : group) (d : disk) (o_odb o_hist o_names : obs) (in_crash : bool) : N :=
   let mo := model_odb g catches_repaired d in
   let mh := model_hist g catches_repaired d in
+  let mn := model_names g catches_repaired d in
   (bit (negb (odb_agrees g mo o_odb)) 4
    + bit (negb (hist_agrees g mh o_hist)) 8
+   + bit (negb (odb_agrees g mn o_names)) 256
    + bit (negb (odb_agrees g (model_odb g catches_current d) o_odb)) 16
    + bit (negb (hist_agrees g (model_hist g catches_current d) o_hist)) 32
-   + bit (if in_crash then negb (odb_in_spec g mo && hist_in_spec g mh) else false) 64)%N.
+   + bit (negb (odb_agrees g (model_names g catches_current d) o_names)) 512
+   + bit (if in_crash then negb (odb_in_spec g mo && hist_in_spec g mh && names_in_spec g mn) else false) 64)%N.
 
 (* 1: executing the step list gives another disk than the direct computation; 2: the harness
    materialised another disk than the model's crash state *)
@@ -169,10 +173,10 @@ Definition state_code (g : group) (s : cstate) : N :=
   ((* vm_compute is call-by-value: [if], not [&&], keeps the quadratic execution to the sampled states *)
    bit (if cs_full s then negb (disk_eqb (stepped_disk ws d0 (cs_wi s) (cs_stage s) (cs_np s) (cs_nj s)) d) else false) 1
    + bit (negb (disk_eqb d (disk_of_prefixes g (cs_disk s)))) 2
-   + outcome_code g d (cs_odb s) (cs_hist s) true)%N.
+   + outcome_code g d (cs_odb s) (cs_hist s) (cs_names s) true)%N.
 
 Definition read_code (g : group) (r : rcase) : N :=
-  outcome_code g (disk_of_prefixes g (rc_disk r)) (rc_odb r) (rc_hist r) false.
+  outcome_code g (disk_of_prefixes g (rc_disk r)) (rc_odb r) (rc_hist r) (rc_names r) false.
 
 Fixpoint codes_from {A} (f : A -> N) (i : N) (l : list A) : list (N * N) :=
   match l with
@@ -187,7 +191,11 @@ Definition is_history_value (v : pval) : bool :=
   match load_history (Loaded v) with HOk u r => pval_eqb (hist_data u r) v | _ => false end.
 
 Definition write_in_domain (w : write) : bool :=
-  match w_file w with History => is_history_value (w_val w) | Objectdb => files_ok (w_val w) end.
+  match w_file w with
+  | History => is_history_value (w_val w)
+  | Objectdb => files_ok (w_val w)
+  | Globalnames => names_ok (w_val w)
+  end.
 
 (* History.write: what is written is history_write_val max_undos undo redo of the live lists *)
 Definition history_write_ok (g : group) (ws : list write) : bool :=
@@ -198,21 +206,24 @@ Definition history_write_ok (g : group) (ws : list write) : bool :=
       | HOk u r =>
           forallb (fun w => match w_file w with
                             | History => pval_eqb (history_write_val (N.to_nat m) u r) (w_val w)
-                            | Objectdb => true
+                            | _ => true
                             end) ws
       | _ => false
       end
   end.
 
-(* the shape of [close_writes]: MemoryDB.write (registered at construction) before History.write *)
+(* the shape of [close_writes]: MemoryDB.write (registered at construction) first, each data file once *)
+Fixpoint no_dup_files (l : list dfile) : bool :=
+  match l with [] => true | f :: r => negb (existsb (dfile_eqb f) r) && no_dup_files r end.
 Definition is_close_writes (ws : list write) : bool :=
-  match ws with
-  | [] | [_] => true
-  | [a; b] => dfile_eqb (w_file a) Objectdb && dfile_eqb (w_file b) History
-  | _ => false
-  end.
+  no_dup_files (map w_file ws)
+  && match ws with
+     | [] => true
+     | w :: r => dfile_eqb (w_file w) Objectdb || negb (existsb (fun w' => dfile_eqb (w_file w') Objectdb) r)
+     end.
 
-(* 128 the history written is not history_write_val of the live lists (trimming);
+(* 256 the traced writer's direct meaning (exec_trace) is not the final disk;
+   128 the history written is not history_write_val of the live lists (trimming);
    64 the writes are not in the hook order of Project.close;
    1 trace is not save_steps; 2 final disk is not run save_steps; 4 the table instance breaks the laws;
    8 a written value is outside the domain of the consumer theorems; 16 the old values rope loads differ
@@ -225,11 +236,13 @@ Definition group_code (g : group) : N :=
    + bit (negb (disk_eqb (run (save_steps ws) d0) (disk_of_blobs g (g_final g)))) 2
    + bit (negb (forallb (good_pickleb tbl) tbl)) 4
    + bit (negb (forallb write_in_domain ws)) 8
-   + bit (negb (odb_agrees g (model_odb g catches_repaired d0) (ObsLoaded (fst (g_old g)))
-                && hist_agrees g (model_hist g catches_repaired d0) (ObsLoaded (snd (g_old g))))) 16
+   + bit (negb (odb_agrees g (model_odb g catches_repaired d0) (ObsLoaded (old_odb g))
+                && hist_agrees g (model_hist g catches_repaired d0) (ObsLoaded (old_hist g))
+                && odb_agrees g (model_names g catches_repaired d0) (ObsLoaded (old_names g)))) 16
    + bit (negb (forallb (fun w => is_value_of (w_val w) (tbl_unpickle tbl (w_pickle w))) ws)) 32
    + bit (negb (is_close_writes ws)) 64
-   + bit (negb (history_write_ok g ws)) 128)%N.
+   + bit (negb (history_write_ok g ws)) 128
+   + bit (negb (disk_eqb (exec_trace (g_trace g) d0) (disk_of_blobs g (g_final g)))) 256)%N.
 
 Definition run_group (g : group) : N * list (N * N) * list (N * N) :=
   (group_code g, codes_from (state_code g) 0 (g_states g), codes_from (read_code g) 0 (g_reads g)).
